@@ -28,7 +28,9 @@ CLAIM = ("Over all code (not sampled inputs): every constant key used to index a
          "the scope test / sentinel that makes it stop before the root (no IndexError); every phase handles every token "
          "kind; html/head/body elements are created only by the handlers the standard names and no phase above <body> "
          "inserts non-white-space text; the tokenizer cannot loop without consuming input (epsilon-graph acyclic, EOF "
-         "chain reaches STOP).")
+         "chain reaches STOP, every scanning loop has an end-of-input exit); a node detached while on the stack leaves the "
+         "stack; None-initialised locals are not dereferenced where they can be None; a handler that hands its token back has "
+         "changed the insertion mode or the stack first.")
 NOT_DECIDED = ("unreachability of the `assert ...innerHTML` sites in document mode, termination of the tree-construction "
                "reprocessing loop, exceptions raised inside xml.dom.minidom / ElementTree, wall-clock.")
 MODULES = ["html5parser.py", "treebuilders/base.py", "treebuilders/etree.py", "treebuilders/dom.py", "_tokenizer.py",
